@@ -270,6 +270,13 @@ pub mod interop {
 	}
 }
 
+/// Verification hook: number of entries currently held by this thread's pool.
+#[cfg(jrsonnet_verif)]
+#[must_use]
+pub fn verif_pool_len() -> usize {
+	POOL.with_borrow(HashMap::len)
+}
+
 #[must_use]
 pub fn intern_bytes(bytes: &[u8]) -> IBytes {
 	POOL.with(|pool| {
